@@ -206,15 +206,15 @@ def sized(rng, max_states=3000, max_paths=None, min_states=8, tries=200, **kw):
     raise RuntimeError("generator could not produce a program within the size bounds")
 
 
-def sized_failing(rng, want="any", max_states=3000, tries=400, max_clean_paths=2000, **kw):
+def sized_failing(rng, want="any", max_states=3000, tries=400, max_clean_paths=2000, max_paths=30000, **kw):
     """A program whose reference state space is complete and contains a reachable failure (want: 'deadlock', 'assert',
     'any') - or none at all (want='clean': simgrid-mc has to explore those completely, so the number of maximal
     interleavings is bounded as well). Returns (Program, families, reference-result) or None."""
     for _ in range(tries):
         p, fam = generate(rng, want_failure=(want != "clean"), **kw)
         r = Ref(p).explore(max_states=max_states)
-        if not r["complete"] or r["states"] < 2:
-            continue
+        if not r["complete"] or r["states"] < 2 or r["paths"] > max_paths:
+            continue            # (max_paths: the reductions explore up to one trace per interleaving, e.g. on barriers)
         d, a = bool(r["deadlock"]), bool(r["assert"])
         if want == "clean":
             if not d and not a and r["states"] >= 8 and r["paths"] <= max_clean_paths:
